@@ -72,6 +72,16 @@ for _ax in ('sample', 'observation'):
     op(f'collapse-norm:{_ax}')(lambda b, t, o, a, ao, inplace, ax=_ax: t.collapse(_label, norm=True, axis=ax))
     op(f'partition:{_ax}')(lambda b, t, o, a, ao, inplace, ax=_ax: [p for _, p in t.partition(_label, axis=ax)])
     op(f'concat:{_ax}', arity=2)(lambda b, t, o, a, ao, inplace, ax=_ax: t.concat([o], axis=ax))
+def _sibling(b, t, ax, a):
+    # a second table built from the first one's matrix object, then modified in place
+    s_ = b.Table(t.matrix_data, list(a.obs_ids), list(a.samp_ids))
+    s_.filter(_half(a.ids(ax)), axis=ax, inplace=True)
+    s_.transform(_double, axis=ax, inplace=True)
+    return s_
+
+
+for _ax in ('sample', 'observation'):
+    op(f'sibling-from-matrix_data:{_ax}')(lambda b, t, o, a, ao, inplace, ax=_ax: _sibling(b, t, ax, a))
 op('del_metadata:whole')(lambda b, t, o, a, ao, inplace: (t.del_metadata(axis='whole'), t)[1])
 op('pa', inplace=True)(lambda b, t, o, a, ao, inplace: t.pa(inplace=inplace))
 op('head')(lambda b, t, o, a, ao, inplace: t.head(1, 2))
